@@ -452,6 +452,24 @@ fn finish(d: &Driver, case: &Case, b: usize, w: World, obs: Obs, m: Matched, con
     if let Some(msg) = batch_atomicity(d, b, &obs) {
         out.failures.push(fail("C12", "batch-torn-by-crash", b, format!("{where_}: {msg}")));
     }
+    // C04: recovered next positions may not fall below what was handed out before the crash
+    let mut hw = high_water(d, b);
+    // an incarnation that did not survive (in-flight delete applied) has ended
+    let inflight_delete: Option<&String> = if b < n { if let Op::Delete { q } = &d.steps[b].op { Some(&d.names[*q]) } else { None } } else { None };
+    for (name, h) in &hw {
+        if !obs.queues.contains_key(name) && inflight_delete != Some(name) {
+            out.failures.push(fail("C04", "queue-with-positions-vanished-after-crash", b, format!("{where_}: a queue (name {} B) that had handed out positions up to {} and was never deleted no longer exists after recovery", name.len(), h)));
+        }
+    }
+    hw.retain(|name, _| obs.queues.contains_key(name));
+    for (name, h) in &hw {
+        if let Some(oq) = obs.queues.get(name) {
+            let next = oq.last_position.map(|p| p + 1).unwrap_or(0);
+            if next <= *h {
+                out.failures.push(fail("C04", "next-regressed-after-crash", b, format!("{where_}: queue recovered with next position {} although position {} had been appended or truncated-to", next, h)));
+            }
+        }
+    }
     let model = match &m {
         Matched::Exact(j) => {
             if *j == b {
@@ -472,24 +490,6 @@ fn finish(d: &Driver, case: &Case, b: usize, w: World, obs: Obs, m: Matched, con
             return out;
         }
     };
-    // C04: recovered next positions may not fall below what was handed out before the crash
-    let mut hw = high_water(d, b);
-    // an incarnation that did not survive (in-flight delete applied) has ended
-    let inflight_delete: Option<&String> = if b < n { if let Op::Delete { q } = &d.steps[b].op { Some(&d.names[*q]) } else { None } } else { None };
-    for (name, h) in &hw {
-        if !obs.queues.contains_key(name) && inflight_delete != Some(name) {
-            out.failures.push(fail("C04", "queue-with-positions-vanished-after-crash", b, format!("{where_}: a queue (name {} B) that had handed out positions up to {} and was never deleted no longer exists after recovery", name.len(), h)));
-        }
-    }
-    hw.retain(|name, _| obs.queues.contains_key(name));
-    for (name, h) in &hw {
-        if let Some(oq) = obs.queues.get(name) {
-            let next = oq.last_position.map(|p| p + 1).unwrap_or(0);
-            if next <= *h {
-                out.failures.push(fail("C04", "next-regressed-after-crash", b, format!("{where_}: queue recovered with next position {} although position {} had been appended or truncated-to", next, h)));
-            }
-        }
-    }
     // --- usable: continuation in lock-step, then a clean restart
     stats.continuations += 1;
     let mut cd = Driver::adopt(w, model, case.probe_seed ^ b as u64);
